@@ -383,7 +383,19 @@ func (g *gen) make(seed int64, i int) input {
 	rng := vrand.Sub(seed, "c38|"+g.spec+"|"+g.iface, i)
 	latest := []uint64{0, 50, 1_000_000, 20_000_000}[rng.Intn(4)]
 	pickAPI := func() apiInfo { return g.apis[rng.Intn(len(g.apis))] }
-	vb := func() string { return validBlocks[rng.Intn(len(validBlocks))] }
+	vb := func() string {
+		if latest >= 1000 && rng.Intn(4) == 0 { // blocks around the head the consumer knows
+			b := latest - []uint64{0, 1, 50, 125, 126, 127, 128, 500}[rng.Intn(8)] + uint64(rng.Intn(2))
+			switch rng.Intn(3) {
+			case 0:
+				return fmt.Sprintf(`"0x%x"`, b)
+			case 1:
+				return fmt.Sprintf(`%d`, b)
+			}
+			return fmt.Sprintf(`"%d"`, b)
+		}
+		return validBlocks[rng.Intn(len(validBlocks))]
+	}
 	var in input
 	op := ""
 	if i < len(g.apis) { // first pass: one valid request per spec API
@@ -520,7 +532,7 @@ func (g *gen) make(seed int64, i int) input {
 				if one == "" {
 					continue
 				}
-				m := 1000 + rng.Intn(4000)
+				m := 300 + rng.Intn(1200)
 				in = input{Base: api.Name, Conn: api.Conn, Url: map[bool]string{true: "/", false: ""}[g.iface == "jsonrpc"], Data: []byte("[" + strings.Repeat(one+",", m-1) + one + "]")}
 			} else {
 				in = g.request(api, rng, "["+strings.Repeat("1,", n)+"1]", "1")
